@@ -55,60 +55,68 @@ def _swapsides(data):
 
 
 def twosided_2_onesided(data):
-    """Convert a one-sided PSD to a twosided PSD
+    """Convert a two-sided PSD to a one-sided PSD
 
-    In order to keep the power in the onesided PSD the same
-    as in the twosided version, the onesided values are twice
-    as much as in the input data (except for the zero-lag value).
+    The values found at the negative frequencies are folded onto the
+    positive frequencies so that the total power is unchanged (the zero
+    frequency and, if the length is even, the Nyquist frequency have no
+    counterpart).
 
     ::
 
-        >>> twosided_2_onesided([10, 2,3,3,2,8])
+        >>> twosided_2_onesided([10, 2, 3, 8, 3, 2])
         array([ 10.,   4.,   6.,   8.])
 
     """
-    assert len(data) % 2 == 0
+    data = np.asarray(data)
     N = len(data)
-    psd = np.array(data[0:N//2+1]) * 2.
-    psd[0] /= 2.
-    psd[-1] = data[-1]
+    if N % 2 == 0:
+        psd = np.array(data[0:N//2+1], dtype=float)
+        psd[1:N//2] += data[:N//2:-1]
+    else:
+        psd = np.array(data[0:(N+1)//2], dtype=float)
+        psd[1:] += data[:N//2:-1]
     return psd
 
 
-def onesided_2_twosided(data):
-    """Convert a two-sided PSD to a one-sided PSD
+def onesided_2_twosided(data, even=True):
+    """Convert a one-sided PSD to a two-sided PSD
 
-    In order to keep the power in the twosided PSD the same
-    as in the onesided version, the twosided values are 2 times
-    lower than the input data (except for the zero-lag and N-lag
-    values).
+    The output follows the FFT convention (zero frequency first, then the
+    positive and finally the negative frequencies). In order to keep the
+    same power, the values are split equally between the positive and
+    negative frequencies, except for the zero frequency and, if the
+    two-sided PSD has an even length (**even** is True), the Nyquist
+    frequency, which is then the last value of the input.
 
     ::
 
-        >>> twosided_2_onesided([10, 4, 6, 8])
-        array([ 10.,   2.,   3.,   3., 2., 8.])
+        >>> onesided_2_twosided([10, 4, 6, 8])
+        array([ 10.,   2.,   3.,   8.,   3.,   2.])
 
     """
-    psd = np.concatenate((data[0:-1], cshift(data[-1:0:-1], -1)))/2.
-    psd[0] *= 2.
-    psd[-1] *= 2.
-    return psd
+    data = np.asarray(data, dtype=float)
+    if even:
+        if len(data) == 1:
+            return data.copy()
+        inner = data[1:-1] / 2.
+        return np.concatenate((data[0:1], inner, data[-1:], inner[::-1]))
+    inner = data[1:] / 2.
+    return np.concatenate((data[0:1], inner, inner[::-1]))
 
 
 def twosided_2_centerdc(data):
     """Convert a two-sided PSD to a center-dc PSD"""
+    data = np.asarray(data)
     N = len(data)
-    # could us int() or // in python 3
-    newpsd = np.concatenate((cshift(data[N//2:], 1), data[0:N//2]))
-    newpsd[0] = data[-1]
-    return newpsd
+    return np.concatenate((data[N-N//2:], data[0:N-N//2]))
 
 
 def centerdc_2_twosided(data):
     """Convert a center-dc PSD to a twosided PSD"""
+    data = np.asarray(data)
     N = len(data)
-    newpsd = np.concatenate((data[N//2:], (cshift(data[0:N//2], -1))))
-    return newpsd
+    return np.concatenate((data[N//2:], data[0:N//2]))
 
 
 def twosided(data):
